@@ -1054,7 +1054,7 @@ End WithOracle.
 
 (* ---------- the defect of the unrepaired Merge (DESIGN F1), kept as a checked witness ---------- *)
 
-(* Merge as it was before /repo commit ca83c00: a replaced id is not re-indexed *)
+(* Merge as it was before /repo commit 5c143bd: a replaced id is not re-indexed *)
 Definition merge_one_unfixed (x : ext) (now : Z) (acc : store * nat) (e : msil) : store * nat :=
   let '(T, n) := acc in
   let '(s', merged, added) := st_merge now (st T) e in
